@@ -14,11 +14,14 @@
   requirement, handler behaviour) is constant during the silent tail, i.e. filters do not read what
   the framework itself writes — see `Env`, `FiltersStable`, `terminates_stable_partial` and, for what
   happens without it, `unstable_filters_witness`.
-  The model follows /repo 608a57d (as reworked by 02af7ce), 30557a0, 40d09eb, 423b86f: `final_state` / `converges` hold for EVERY object
+  The model follows /repo 608a57d (as reworked by 02af7ce), 30557a0, 40d09eb — and ad4ec08, which took 423b86f back: an object
+  the framework is BLIND to is not written to at all, so the clause "no owned progress record remains" of `final_state` /
+  `converges` is guarded by `prematch` again (`blind_witness`: finding C03-F2, open again by decision — purging by handler id
+  and prefix let one deployment of an operator purge another's records, C15-F9); every other clause holds for EVERY object
   (seen or blind, in deletion or not); a carried no-op never swallows a cycle (`carried_noop_comes_back`,
   `carried_converges`: 02af7ce, the rework of 608a57d — zero delay, touch, the handlers run one turn later); a held-back cycle with a non-empty no-op patch comes back after the deadline
   (`inconsistent_nonempty_revisited`, `inconsistent_converges`). The turns as they were before those repairs
-  (`loopStepOld`, `loopStepCOld`, `loopStepIOld`) are kept for the regression theorems `blind_witness`,
+  (`loopStepOld`, `loopStepCOld`, `loopStepIOld`) are kept for the regression theorems
   `free_witness`, `carried_noop_witness`, `carried_noop_blocks_release_witness`, `inconsistent_nonempty_witness`.
   The model follows /repo f7d6401 too (formerly finding C03-N3): the handling pass is `C02.cycleB` — a handler declared
   for the current reason does not inherit the progress recorded under its id for another cause (`pass_is_cycleB`,
@@ -120,20 +123,21 @@ theorem terminates_finitely_failing (env : Env) (wf : WF env) (hfin : FinitelyFa
 
 /-- FINAL STATE of an object that still exists, WHATEVER it is — seen by the framework or not (no handler's filters
     accept it: "blind"), in deletion (held by somebody else's finalizer only) or not. Whenever the loop has consumed
-    its pending event(s) and nothing is pending any more: NO progress record of any owned handler remains, and the
+    its pending event(s) and nothing is pending any more: NO progress record of any owned handler remains — if the
+    framework SEES the object (`prematch`; a blind one is not touched: `blind_left_alone`, `blind_witness`) — and the
     framework has stopped writing — even a further (re-)delivered event is processed with no change of records or
     last-handled state and leaves nothing pending; the only request it can cause is the constant part of the patch
     that changes nothing (`cp env`: 0 unless e.g. an `on.event` handler returns a constant). And if the framework
     sees the object (`prematch`) and it is not in deletion, the recorded last-handled state IS the object's essence
     and nothing initial is outstanding. (No hypothesis on the handlers: a safety property of every quiescent state.
-    Formerly guarded by `prematch` and `marked = false` altogether: C03-F2, repaired by 423b86f — `blind_witness` —
-    and C03-N4, repaired by 40d09eb — `free_witness`. The last-handled state of a blind object, or of one in
+    The records clause was guarded by `marked = false` too: C03-N4, repaired by 40d09eb — `free_witness`; its guard
+    `prematch` was lifted by 423b86f (C03-F2) and is back with ad4ec08. The last-handled state of a blind object, or of one in
     deletion, is left alone BY DESIGN: it is what makes the changes made meanwhile arrive as ONE accumulated update
     when the object matches again; no handler is selected for such an object.) -/
 theorem final_state (env : Env) (m : Nat) :
     ∀ (s : State E), s.pending = true → s.gone = false →
       (iter env m s).pending = false → (iter env m s).gone = false →
-      (∀ i ∈ env.owned, (iter env m s).P i = none) ∧
+      (env.prematch = true → ∀ i ∈ env.owned, (iter env m s).P i = none) ∧
       (env.prematch = true → s.marked = false →
         (iter env m s).base = some s.ess ∧
         ((iter env m s).noticed = true → (iter env m s).fullyHandled = true)) ∧
@@ -204,15 +208,15 @@ theorem final_state_deleted (env : Env) (m : Nat) :
 
 /-- CONVERGENCE = termination + final state, for EVERY object (seen or blind, in deletion or not): within the bound
     the loop is quiescent; an object that is not in deletion is still there; and an object that is still there
-    carries no progress record, is not written to any more, and — if the framework sees it and it is not in deletion —
-    its recorded last-handled state is its essence. (Formerly guarded by `prematch` and `marked = false`: C03-F2,
-    C03-N4.) -/
+    carries no progress record (if the framework sees it: C03-F2 is open again, ad4ec08), is not written to any more,
+    and — if the framework sees it and it is not in deletion — its recorded last-handled state is its essence.
+    (The records clause was guarded by `marked = false` as well: C03-N4, repaired by 40d09eb.) -/
 theorem converges (env : Env) (wf : WF env) (hfin : AllFinal env)
     (s : State E) (hu : Uniform env s) (hp : s.pending = true) (hg : s.gone = false) :
     ∃ m, m ≤ bound env s ∧ (iter env m s).pending = false ∧
       (s.marked = false → (iter env m s).gone = false) ∧
       ((iter env m s).gone = false →
-        (∀ i ∈ env.owned, (iter env m s).P i = none) ∧
+        (env.prematch = true → ∀ i ∈ env.owned, (iter env m s).P i = none) ∧
         (env.prematch = true → s.marked = false → (iter env m s).base = some s.ess) ∧
         (loopStep env { iter env m s with pending := true }).writes = (iter env m s).writes + cp env ∧
         (loopStep env { iter env m s with pending := true }).pending = false) := by
@@ -228,7 +232,7 @@ theorem converges_finitely_failing (env : Env) (wf : WF env) (hfin : FinitelyFai
     ∃ m, (iter env m s).pending = false ∧
       (s.marked = false → (iter env m s).gone = false) ∧
       ((iter env m s).gone = false →
-        (∀ i ∈ env.owned, (iter env m s).P i = none) ∧
+        (env.prematch = true → ∀ i ∈ env.owned, (iter env m s).P i = none) ∧
         (env.prematch = true → s.marked = false → (iter env m s).base = some s.ess) ∧
         (loopStep env { iter env m s with pending := true }).writes = (iter env m s).writes + cp env ∧
         (loopStep env { iter env m s with pending := true }).pending = false) := by
@@ -275,7 +279,7 @@ theorem all_selected_completed (env : Env) (wf : WF env) (s : State E) (hp : s.p
       ⟨_, _, _, _, _, h⟩
     · right; rw [h]; rfl
     · right; rw [h]; rfl
-    · right; rw [h]; exact (purgeTurn_fields env s).2.2.2.2.2.1
+    · right; rw [h]; rfl
     · left; rw [h]; rfl
     · right; rw [h]; exact (purgeTurn_fields env s).2.2.2.2.2.1
     · left; rw [h]
@@ -473,21 +477,20 @@ theorem accumulated_change (env : Env) (s : State E) (edits : List E) (t : Tick)
   · intro hb
     rw [hc]; simp [causeOf, restart, hb, hm, C05.detect, C05.detectReason]
 
-/-- An object no changing handler's filters accept (and whose finalizer needs no adjustment): no handler runs, the
-    last-handled state is left alone, and the leftover progress records PRESENT on it are purged (repo fix 423b86f,
-    formerly C03-F2): with leftovers one PATCH goes out, its echo is the next event; with nothing to purge the event
-    is consumed and nothing is written (but the constant part of the patch). Either way no owned record is on the
-    object afterwards. -/
-theorem blind_purges (env : Env) (hpm : env.prematch = false) (s : State E) (hp : s.pending = true)
+/-- An object no changing handler's filters accept (and whose finalizer needs no adjustment) is LEFT ALONE: no handler
+    runs, nothing is read or written (but the constant part of the patch), no event follows; the last-handled state and
+    whatever progress records the object carries stay as they are. (Repo fix 423b86f had the leftover records purged
+    — by handler id and annotation prefix, which every deployment of the same operator code shares: one deployment
+    purged what another had just stored, C15-F9 — and ad4ec08 took it back.) -/
+theorem blind_left_alone (env : Env) (hpm : env.prematch = false) (s : State E) (hp : s.pending = true)
     (hg : s.gone = false) (ha : adjusting env s = false) :
-    (loopStep env s).base = s.base ∧ (∀ i ∈ env.owned, (loopStep env s).P i = none) ∧
-    (leftovers env s = true → (loopStep env s).pending = true ∧ (loopStep env s).writes = s.writes + 1) ∧
-    (leftovers env s = false → (loopStep env s).pending = false ∧
-      (loopStep env s).writes = s.writes + cp env ∧ (loopStep env s).P = s.P) := by
+    (loopStep env s).base = s.base ∧ (loopStep env s).P = s.P ∧
+    (loopStep env s).pending = false ∧ (loopStep env s).writes = s.writes + cp env ∧
+    (loopStep env s).blocked = s.blocked ∧ (loopStep env s).gone = false := by
   rcases turn_cases env s hp hg with ⟨h1, _⟩ | ⟨h1, _⟩ | ⟨_, _, h⟩ | ⟨_, h1, _⟩ | ⟨_, h1, _⟩ | ⟨_, h1, _⟩
   · unfold adjusting at ha; simp [h1] at ha
   · unfold adjusting at ha; simp [h1] at ha
-  · rw [h]; exact purgeTurn_spec env s
+  · rw [h]; exact ⟨rfl, rfl, rfl, rfl, rfl, hg⟩
   · rw [hpm] at h1; cases h1
   · rw [hpm] at h1; cases h1
   · rw [hpm] at h1; cases h1
@@ -496,8 +499,8 @@ theorem blind_purges (env : Env) (hpm : env.prematch = false) (s : State E) (hp 
     still exists because somebody else's finalizer holds it: the cause is FREE; no handler runs, finalizer and
     last-handled state are left alone, and the leftover progress records PRESENT on it are purged (repo fix 40d09eb,
     formerly C03-N4): one PATCH and its echo, or — nothing to purge — nothing written. Either way no owned record is on
-    the object afterwards. -/
-theorem free_purges (env : Env) (s : State E) (hp : s.pending = true) (hg : s.gone = false)
+    the object afterwards. (If the framework sees the object: blindness comes first, `blind_left_alone`.) -/
+theorem free_purges (env : Env) (hpm : env.prematch = true) (s : State E) (hp : s.pending = true) (hg : s.gone = false)
     (hmk : s.marked = true) (hbl : s.blocked = false) :
     (loopStep env s).base = s.base ∧ (∀ i ∈ env.owned, (loopStep env s).P i = none) ∧
     (leftovers env s = true → (loopStep env s).pending = true ∧ (loopStep env s).writes = s.writes + 1) ∧
@@ -505,12 +508,11 @@ theorem free_purges (env : Env) (s : State E) (hp : s.pending = true) (hg : s.go
       (loopStep env s).writes = s.writes + cp env ∧ (loopStep env s).P = s.P) ∧
     (loopStep env s).gone = false ∧ (loopStep env s).blocked = false := by
   obtain ⟨f1, f2, _⟩ := free_step env s hbl hmk
-  rcases turn_cases env s hp hg with ⟨_, h1, _⟩ | ⟨_, h1, _⟩ | ⟨_, _, h⟩ | ⟨_, _, _, h1, _⟩ | ⟨_, _, _, _, h⟩ |
+  rcases turn_cases env s hp hg with ⟨_, h1, _⟩ | ⟨_, h1, _⟩ | ⟨_, hb, _⟩ | ⟨_, _, _, h1, _⟩ | ⟨_, _, _, _, h⟩ |
     ⟨_, _, _, _, hfr, _⟩
   · rw [hmk] at h1; cases h1
   · rw [hbl] at h1; cases h1
-  · obtain ⟨a, b, c, d⟩ := purgeTurn_spec env s
-    rw [h] at f1 f2 ⊢; exact ⟨a, b, c, d, f2.trans hg, f1⟩
+  · rw [hpm] at hb; cases hb
   · rw [hbl] at h1; cases h1
   · obtain ⟨a, b, c, d⟩ := purgeTurn_spec env s
     rw [h] at f1 f2 ⊢; exact ⟨a, b, c, d, f2.trans hg, f1⟩
@@ -739,21 +741,20 @@ theorem reverted_change_purged_instance :
     bound (envW true) (stateW (some 1) 1) = 2 :=
   ⟨by decide, by decide, by decide, by decide, by decide, by decide, by decide, by decide⟩
 
-/-- C03-F2 (repaired by 423b86f), kept as a regression of the OLD turn (`loopStepOld`): before the repair "no
-    progress records remain" was FALSE for an object that stopped matching every handler: the framework was blind to
-    it, the stale record was never touched again. All hypotheses of `terminates` hold. -/
+/-- C03-F2 (OPEN again: its repair 423b86f was taken back by ad4ec08, see C15-F9): "no progress records remain" is FALSE
+    for an object that stopped matching every handler while one was retrying: the framework is blind to it, the stale
+    record (and the outdated last-handled state) is never touched again — one turn, nothing written, quiescent, for as
+    long as the object does not match. All hypotheses of `terminates` / `converges` hold; the guard `prematch` of their
+    records clause is what fails. Replayed on the real operator: corpus/C03/F2_blind_stale_record.json. -/
 theorem blind_witness :
     ∃ (env : Env) (s : State Nat), WF env ∧ AllFinal env ∧ Uniform env s ∧ env.prematch = false ∧
       s.pending = true ∧ s.gone = false ∧ s.marked = false ∧ "u0" ∈ env.owned ∧
-      (iterOld env 1 s).pending = false ∧ (iterOld env 1 s).writes = s.writes ∧
-      (iterOld env 1 s).P "u0" = s.P "u0" ∧ (s.P "u0").isSome = true ∧
-      -- the repaired turn: one PATCH purges the record, its echo finds nothing to do; last-handled is left alone
-      (iter env 1 s).pending = true ∧ (iter env 1 s).writes = s.writes + 1 ∧ (iter env 1 s).P "u0" = none ∧
-      (iter env 2 s).pending = false ∧ (iter env 2 s).writes = s.writes + 1 ∧ (iter env 2 s).base = s.base ∧
-      bound env s = 2 :=
+      (iter env 1 s).pending = false ∧ (iter env 1 s).gone = false ∧ (iter env 1 s).writes = s.writes ∧
+      (iter env 1 s).P "u0" = s.P "u0" ∧ (s.P "u0").isSome = true ∧ (iter env 1 s).base = s.base ∧
+      s.base ≠ some s.ess ∧ bound env s = 1 ∧ (∀ n, iter env (n + 1) s = iter env 1 s) :=
   ⟨envW false, stateW (some 0) 1, envW_wf false, fun _ _ => rfl, stateW_uniform false _ _, rfl, rfl, rfl, rfl,
-   by decide, by decide, by decide, by decide, by decide, by decide, by decide, by decide, by decide, by decide,
-   by decide, by decide⟩
+   by decide, by decide, by decide, by decide, by decide, by decide, by decide, by decide, by decide,
+   fun n => iter_quiescent (envW false) n _ (by decide)⟩
 
 def envF : Env := { envW true with foreignFins := true }
 def stateF : State Nat := { stateW (some 0) 1 with marked := true }
@@ -779,11 +780,11 @@ theorem free_witness :
   · exact ⟨(envW_wf true).1, by decide, by decide, by decide⟩
   · exact stateW_uniform true (some 0) 1
 
--- non-vacuity of `blind_purges` / `free_purges` (and of the blind and FREE cases of `final_state` / `converges`): the
--- states of `blind_witness` / `free_witness` meet the hypotheses, with leftovers to purge; after the purge none
-example : adjusting (envW false) (stateW (some 0) 1) = false ∧ leftovers (envW false) (stateW (some 0) 1) = true ∧
-    leftovers (envW false) (iter (envW false) 1 (stateW (some 0) 1)) = false ∧
-    adjusting envF stateF = false ∧ leftovers envF stateF = true ∧ leftovers envF (iter envF 1 stateF) = false ∧
+-- non-vacuity of `blind_left_alone` / `free_purges` (and of the blind and FREE cases of `final_state` / `converges`): the
+-- states of `blind_witness` / `free_witness` meet the hypotheses; the FREE one has leftovers to purge, after the purge none
+example : adjusting (envW false) (stateW (some 0) 1) = false ∧ (envW false).prematch = false ∧
+    adjusting envF stateF = false ∧ envF.prematch = true ∧ leftovers envF stateF = true ∧
+    leftovers envF (iter envF 1 stateF) = false ∧
     (iter (envW false) 2 (stateW (some 0) 1)).gone = false ∧ (iter envF 2 stateF).gone = false := by
   refine ⟨by decide, by decide, by decide, by decide, by decide, by decide, by decide, by decide⟩
 
@@ -896,7 +897,7 @@ theorem carried_converges (env : Env) (wf : WF env) (hfin : FinitelyFailing env)
     (s : State E) (hu : Uniform env s) (hp : s.pending = true) (hg : s.gone = false) :
     ∃ m, (iter env m (loopStepC env c s)).pending = false ∧
       ((iter env m (loopStepC env c s)).gone = false →
-        (∀ i ∈ env.owned, (iter env m (loopStepC env c s)).P i = none) ∧
+        (env.prematch = true → ∀ i ∈ env.owned, (iter env m (loopStepC env c s)).P i = none) ∧
         (env.prematch = true → s.marked = false → (iter env m (loopStepC env c s)).base = some s.ess) ∧
         (loopStep env { iter env m (loopStepC env c s) with pending := true }).writes
           = (iter env m (loopStepC env c s)).writes + cp env ∧
@@ -905,7 +906,7 @@ theorem carried_converges (env : Env) (wf : WF env) (hfin : FinitelyFailing env)
   have ordinary : loopStepC env c s = loopStep env s →
       ∃ m, (iter env m (loopStepC env c s)).pending = false ∧
         ((iter env m (loopStepC env c s)).gone = false →
-          (∀ i ∈ env.owned, (iter env m (loopStepC env c s)).P i = none) ∧
+          (env.prematch = true → ∀ i ∈ env.owned, (iter env m (loopStepC env c s)).P i = none) ∧
           (env.prematch = true → s.marked = false → (iter env m (loopStepC env c s)).base = some s.ess) ∧
           (loopStep env { iter env m (loopStepC env c s) with pending := true }).writes
             = (iter env m (loopStepC env c s)).writes + cp env ∧
@@ -1167,7 +1168,7 @@ theorem inconsistent_converges (env : Env) (wf : WF env) (hfin : FinitelyFailing
     (s : State E) (hu : Uniform env s) (hp : s.pending = true) (hg : s.gone = false) :
     ∃ m, (iter env m (loopStepI env ne dl s)).pending = false ∧
       ((iter env m (loopStepI env ne dl s)).gone = false →
-        (∀ i ∈ env.owned, (iter env m (loopStepI env ne dl s)).P i = none) ∧
+        (env.prematch = true → ∀ i ∈ env.owned, (iter env m (loopStepI env ne dl s)).P i = none) ∧
         (env.prematch = true → s.marked = false → (iter env m (loopStepI env ne dl s)).base = some s.ess) ∧
         (loopStep env { iter env m (loopStepI env ne dl s) with pending := true }).writes
           = (iter env m (loopStepI env ne dl s)).writes + cp env ∧
@@ -1177,7 +1178,7 @@ theorem inconsistent_converges (env : Env) (wf : WF env) (hfin : FinitelyFailing
       s'.marked = s.marked → loopStepI env ne dl s = loopStep env s' →
       ∃ m, (iter env m (loopStepI env ne dl s)).pending = false ∧
         ((iter env m (loopStepI env ne dl s)).gone = false →
-          (∀ i ∈ env.owned, (iter env m (loopStepI env ne dl s)).P i = none) ∧
+          (env.prematch = true → ∀ i ∈ env.owned, (iter env m (loopStepI env ne dl s)).P i = none) ∧
           (env.prematch = true → s.marked = false → (iter env m (loopStepI env ne dl s)).base = some s.ess) ∧
           (loopStep env { iter env m (loopStepI env ne dl s) with pending := true }).writes
             = (iter env m (loopStepI env ne dl s)).writes + cp env ∧
